@@ -255,7 +255,7 @@ def run(tier, seed, t0, only=None):
         shapes = [('B11b', 'cudd', OPS), ('B02', 'cudd', OPS), ('S11', 'autoref', OPS),
                   ('B21', 'cudd', ONE), ('B12', 'cudd', ONE), ('I11a', 'cudd', ONE), ('I11n', 'cudd', ONE)]
     else:
-        shapes = [('B11b', 'cudd', OPS), ('B02', 'cudd', OPS), ('S11', 'autoref', OPS), ('B11b', 'autoref', OPS),
+        shapes = [('B11b', 'cudd', OPS), ('B02', 'cudd', OPS), ('S11', 'autoref', OPS), ('B02', 'autoref', OPS),
                   ('S11h2', 'cudd', OPS), ('T11b', 'cudd', OPS), ('B21', 'cudd', ONE), ('B12', 'cudd', ONE), ('I11a', 'cudd', ONE),
                   ('I11n', 'cudd', ONE), ('I11b', 'cudd', ONE), ('S21', 'cudd', ONE), ('S12', 'cudd', ONE)]
     tasks = []
